@@ -202,7 +202,8 @@ class Ctx:
             evj = json.loads(ev)
             tgt = target
             try:
-                tgt = json.loads(lines[start]).get("via") or target
+                rl = json.loads(lines[start])
+                tgt = rl.get("via") or rl.get("impl") or target
             except Exception:
                 pass
             key = "%s | trace:%s/%s | %s" % (tgt, evj.get("a"), evj.get("via", ""), str(evj.get("r"))[:40])
